@@ -294,6 +294,11 @@ func cmdCheck(args []string) {
 			}
 		}
 		if bad == nil {
+			for _, o := range gp.obls {
+				if o.Time > 5 {
+					fmt.Printf("SLOW %s %.1fs %s key=%s\n", *prop, o.Time, o.Solver, o.Key())
+				}
+			}
 			nDis++
 			if len(samples) < 8 {
 				o := gp.obls[0]
@@ -411,7 +416,7 @@ func sanitize(s string) string {
 
 func writeReplay(w *World, path, prop string, o *Obligation, repo string) string {
 	var sb strings.Builder
-	fmt.Fprintf(&sb, "property: %s\nfailed obligation: %s\nkind: %s\nat: %s\n", prop, o.Name, o.Kind, o.Pos)
+	fmt.Fprintf(&sb, "property: %s\nfailed obligation: %s\nobligation key: %s\nkind: %s\nat: %s\n", prop, o.Name, o.Key(), o.Kind, o.Pos)
 	if o.Src != "" {
 		fmt.Fprintf(&sb, "clause: %s\n", o.Src)
 	}
